@@ -174,3 +174,5 @@ package retry
 
 // the name under which stale-command back-offs are accounted (for contracts of other packages)
 //@ spec func staleCmdKind() string { return BoStaleCmd.name }
+// the name under which region-scheduling back-offs (no leader / leadership still moving) are accounted
+//@ spec func regionSchedulingKind() string { return BoRegionScheduling.name }
